@@ -426,7 +426,7 @@ package statefulset
 //@ extern github.com/pingcap/advanced-statefulset/client/client/clientset/versioned/typed/apps/v1:StatefulSetInterface.UpdateStatus@realStatefulSetStatusUpdater.UpdateStatefulSetStatus
 //@   params c, ctx, obj, opts
 //@   requires obj != nil
-//@   profile defaulted requires [C12] truthful: obj.Status == deref(status) && 0 <= obj.Status.ReadyReplicas && obj.Status.ReadyReplicas <= obj.Status.Replicas && 0 <= obj.Status.CurrentReplicas && obj.Status.CurrentReplicas <= obj.Status.Replicas && 0 <= obj.Status.UpdatedReplicas && obj.Status.UpdatedReplicas <= obj.Status.Replicas
+//@   profile defaulted requires [C09,C12] truthful: obj.Status == deref(status) && 0 <= obj.Status.ReadyReplicas && obj.Status.ReadyReplicas <= obj.Status.Replicas && 0 <= obj.Status.CurrentReplicas && obj.Status.CurrentReplicas <= obj.Status.Replicas && 0 <= obj.Status.UpdatedReplicas && obj.Status.UpdatedReplicas <= obj.Status.Replicas
 //@   modifies gApiFails, gWrites
 //@   ensures failed(old(gApiFails), gApiFails, result1) && gWrites == old(gWrites) + 1
 //@   ensures result1 == nil ==> result0 != nil
